@@ -1,4 +1,5 @@
 import Hls.Playlist.MultiLemmas
+import Hls.Playlist.FloatLemmas
 import Hls.Gen.PlaylistMulti
 /-!
 # C14 (multivariant half) — Playlist Marshal/Unmarshal round-trips every field
@@ -10,15 +11,13 @@ Model: `Hls.Playlist.{Prim,Multi}` mirror pkg/playlist/primitives, multivariant*
 playlist.go statement by statement; the `t1_*` theorems pin the model's literal tables to the
 tables regenerated from the Go source on every run (`Hls.Gen.PlaylistMulti`).
 
-Floats.  `strconv.FormatFloat / ParseFloat` and float64 arithmetic are modelled exactly by the
-soft float `F64`.  FRAME-RATE needs nothing beyond that model (`FrFloatOK_of_WF`: the 3-decimal
-text of a well-formed frame rate parses back to it, by the definitions of `FormatFloat` and
-`ParseFloat` alone).  Where a statement depends on the NUMERICAL behaviour of float arithmetic —
-only EXT-X-START TIME-OFFSET — it carries the hypothesis `StartFloatOK p`: "the tie/±1 ns
-envelope of DESIGN §2 holds at `p`'s TIME-OFFSET" — a decidable condition, evaluated by the model
-driver on every generated value.  `c14_startfloatok_of_envelope` derives it for every well-formed
-value from the envelope proposition `FloatEnvelope` (trusted base, §7.3); it is vacuous for
-values without EXT-X-START.
+Floats.  `strconv.FormatFloat / ParseFloat`, `Duration.Seconds()` and the float64 operations involved are
+modelled exactly by the soft float `F64` (integer arithmetic), tied to Go by the scalar ops of the T2
+stream.  The tie/±1 ns envelope of DESIGN §2 is a THEOREM about that model (`floatEnvelope`,
+`floatEnvelope3` in `Hls/Playlist/FloatLemmas.lean`: `roundRat` is within half an ulp, integers
+below 2^53 are exact, …), so no statement below carries a float hypothesis.  `StartFloatOK p` /
+`FloatOK p` (the envelope at the float fields of one value, decidable) remain as the run-time cross
+check the driver evaluates on every generated value.
 -/
 namespace Hls.Props.C14Multi
 open Hls.Playlist
@@ -103,15 +102,15 @@ example : WFAttrs [(c!"BANDWIDTH", .unquoted c!"1"), (c!"CODECS", .quoted c!"a,b
     `Rendition` (Type, GroupID, Name, Language, Autoselect, Default, Forced, Channels, URI, InStreamID —
     the whole list is equal), and `Start.TimeOffset` rounded to the 10 µs of the text form
     (`StartQuant`: nearest, either neighbour at a tie, ±1 ns). -/
-theorem c14_multivariant_roundtrip (p : Multivariant) (h : WFMultivariant p) (hf : StartFloatOK p) :
+theorem c14_multivariant_roundtrip (p : Multivariant) (h : WFMultivariant p) :
     ∃ p' : Multivariant, Multivariant.unmarshal p.marshal = .ok p' ∧
       p'.version = p.version ∧ p'.independentSegments = p.independentSegments ∧
       StartQuant p.start p'.start ∧ p'.variants = p.variants ∧ p'.renditions = p.renditions := by
-  obtain ⟨st', h1, h2, _⟩ := unmarshal_marshal h (FloatOK_of_start h hf)
+  obtain ⟨st', h1, h2, _⟩ := unmarshal_marshal h (FloatOK_of_envelope floatEnvelope floatEnvelope3 h)
   exact ⟨_, h1, rfl, rfl, h2, rfl, rfl⟩
 
 /-- per field, for the i-th variant and the j-th rendition -/
-theorem c14_multivariant_roundtrip_fields (p : Multivariant) (h : WFMultivariant p) (hf : StartFloatOK p) :
+theorem c14_multivariant_roundtrip_fields (p : Multivariant) (h : WFMultivariant p) :
     ∃ p' : Multivariant, Multivariant.unmarshal p.marshal = .ok p' ∧
       (∀ (i : Nat) (v : Variant), p.variants[i]? = some v → ∃ v' : Variant, p'.variants[i]? = some v' ∧
         v'.bandwidth = v.bandwidth ∧ v'.averageBandwidth = v.averageBandwidth ∧ v'.codecs = v.codecs ∧
@@ -121,45 +120,33 @@ theorem c14_multivariant_roundtrip_fields (p : Multivariant) (h : WFMultivariant
         r'.type = r.type ∧ r'.groupID = r.groupID ∧ r'.name = r.name ∧ r'.language = r.language ∧
         r'.autoselect = r.autoselect ∧ r'.default = r.default ∧ r'.forced = r.forced ∧
         r'.channels = r.channels ∧ r'.uri = r.uri ∧ r'.inStreamID = r.inStreamID) := by
-  obtain ⟨st', h1, _, _⟩ := unmarshal_marshal h (FloatOK_of_start h hf)
+  obtain ⟨st', h1, _, _⟩ := unmarshal_marshal h (FloatOK_of_envelope floatEnvelope floatEnvelope3 h)
   refine ⟨_, h1, ?_, ?_⟩
   · intro i v hv; exact ⟨v, hv, rfl, rfl, rfl, rfl, rfl, rfl, rfl, rfl, rfl, rfl⟩
   · intro j r hr; exact ⟨r, hr, rfl, rfl, rfl, rfl, rfl, rfl, rfl, rfl, rfl, rfl⟩
 
-/-- `StartFloatOK` follows from the float envelope for every well-formed value … -/
-theorem c14_startfloatok_of_envelope (env : FloatEnvelope) (p : Multivariant) (h : WFMultivariant p) :
-    StartFloatOK p := OptAll_imp h.2.1 (fun _ ht => DurFloatOK_of_envelope env ht)
+/-- the envelope at the float fields of any well-formed value (what the driver re-checks at run time) -/
+theorem c14_floatok (p : Multivariant) (h : WFMultivariant p) : FloatOK p ∧ StartFloatOK p :=
+  ⟨FloatOK_of_envelope floatEnvelope floatEnvelope3 h, (FloatOK_of_envelope floatEnvelope floatEnvelope3 h).1⟩
 
-/-- … and holds outright for values without EXT-X-START (whatever their frame rates). -/
-theorem c14_startfloatok_nostart (p : Multivariant) (hs : p.start = none) : StartFloatOK p := by
-  unfold StartFloatOK; rw [hs]; trivial
+/-- the float envelope itself (durations: nearest 10 µs text, ±1 ns back; frame rates: exact) -/
+theorem c14_float_envelope : FloatEnvelope ∧ FloatEnvelope3 := ⟨floatEnvelope, floatEnvelope3⟩
 
-/-- hence the round trip is unconditional for playlists without EXT-X-START -/
+/-- without EXT-X-START the decoded value is `p` itself -/
 theorem c14_multivariant_roundtrip_nostart (p : Multivariant) (h : WFMultivariant p) (hs : p.start = none) :
     Multivariant.unmarshal p.marshal = .ok p := by
-  obtain ⟨st', h1, h2, _⟩ := unmarshal_marshal h (FloatOK_of_start h (c14_startfloatok_nostart p hs))
+  obtain ⟨st', h1, h2, _⟩ := unmarshal_marshal h (FloatOK_of_envelope floatEnvelope floatEnvelope3 h)
   rw [h1]
   rw [hs] at h2
   cases st' with
   | none => cases p; simp_all
   | some t => exact absurd h2 id
 
-/-- The full statement of the property for this half. -/
-def C14MultivariantRoundtrip : Prop :=
-  ∀ p : Multivariant, WFMultivariant p →
-    ∃ p' : Multivariant, Multivariant.unmarshal p.marshal = .ok p' ∧
-      p'.version = p.version ∧ p'.independentSegments = p.independentSegments ∧
-      StartQuant p.start p'.start ∧ p'.variants = p.variants ∧ p'.renditions = p.renditions
-
-/-- The full statement, with the missing lemma (the float envelope of the soft float) as a named hypothesis. -/
-theorem c14_multivariant_roundtrip_partial (env : FloatEnvelope) : C14MultivariantRoundtrip :=
-  fun p h => c14_multivariant_roundtrip p h (c14_startfloatok_of_envelope env p h)
-
 /-- `c14_multi_fixpoint`: `Marshal` is a fixpoint on its own output — the decoded value marshals to
     the same bytes. -/
-theorem c14_multi_fixpoint (p : Multivariant) (h : WFMultivariant p) (hf : StartFloatOK p) :
+theorem c14_multi_fixpoint (p : Multivariant) (h : WFMultivariant p) :
     ∃ p' : Multivariant, Multivariant.unmarshal p.marshal = .ok p' ∧ p'.marshal = p.marshal := by
-  obtain ⟨st', h1, _, h3⟩ := unmarshal_marshal h (FloatOK_of_start h hf)
+  obtain ⟨st', h1, _, h3⟩ := unmarshal_marshal h (FloatOK_of_envelope floatEnvelope floatEnvelope3 h)
   refine ⟨_, h1, ?_⟩
   unfold Multivariant.marshal
   cases st' <;> cases hp : p.start <;> simp_all [Option.map]
@@ -253,6 +240,20 @@ theorem c14_variants_multi (p : Multivariant) (h : WFMultivariant p) :
       intro hm; apply hcr; rw [e]; exact List.mem_append_left _ hm
     rw [e]
     exact (unmarshal_snoc_nl hcr').symm
+
+example : WFMultivariant {
+    version := 7, independentSegments := true, start := (some { timeOffset := -1500000000 }),
+    variants := [{ bandwidth := 2147483647, averageBandwidth := (some 0), codecs := [c!"avc1.42c028", c!"mp4a.40.2"], resolution := c!"1280x720", video := c!"v", audio := c!"a b", subtitles := c!"s", closedCaptions := c!"cc", uri := c!"stream 1.m3u8" }],
+    renditions := [{ type := c!"CLOSED-CAPTIONS", groupID := c!"cc", name := c!"n", inStreamID := (some c!"CC1"), forced := true }, { type := c!"SUBTITLES", groupID := c!"s", name := c!"x", uri := (some []) }] } := by decide
+
+/-- each clause of `WFMultivariant` is there because without it the round trip is false by the
+    format's own semantics; e.g. a quote inside a quoted string, a CR at the end of a URI,
+    CLOSED-CAPTIONS with a URI -/
+example : ¬ WFMultivariant { version := 3, variants := [{ bandwidth := 1, codecs := [c!"a"], uri := c!"u", audio := c!"a\"b" }] } := by decide
+example : ¬ WFMultivariant { version := 3, variants := [{ bandwidth := 1, codecs := [c!"a"], uri := c!"u\r" }] } := by decide
+example : ¬ WFMultivariant {
+    version := 3, variants := [{ bandwidth := 1, codecs := [c!"a"], uri := c!"u" }],
+    renditions := [{ type := c!"CLOSED-CAPTIONS", groupID := c!"g", name := c!"n", uri := (some c!"x"), inStreamID := (some c!"CC1") }] } := by decide
 
 example : ∃ p : Multivariant, WFMultivariant p ∧ StartFloatOK p :=
   ⟨{ version := 3, variants := [{ bandwidth := 1, codecs := [c!"avc1"], uri := c!"a.m3u8" }] }, by decide, by decide⟩
